@@ -3,6 +3,9 @@
 package system
 
 import (
+	"time"
+
+	dtpb "github.com/google/fhir/go/proto/google/fhir/proto/r4/core/datatypes_go_proto"
 	"errors"
 
 	"github.com/verily-src/fhirpath-go/internal/verifrt"
@@ -27,8 +30,8 @@ func verifCheckPair(a, b Any, cmp int, defined bool) {
 
 // C05-E1 Date x Date, every precision pair.
 func VerifHarness_C05_DatePairs() {
-	a, ca := verifDate("a")
-	b, cb := verifDate("b")
+	a, ca := verifDateSrc("a", true)
+	b, cb := verifDateSrc("b", true)
 	cmp, defined := verifCompare("date", ca, cb)
 	verifCheckPair(a, b, cmp, defined)
 	verifrt.Reach("end")
@@ -217,3 +220,46 @@ func VerifHarness_C05_TransitiveInteger() { verifTransitive(0) }
 func VerifHarness_C05_TransitiveString()  { verifTransitive(1) }
 func VerifHarness_C05_TransitiveDate()    { verifTransitive(2) }
 func VerifHarness_C05_TransitiveTime()    { verifTransitive(3) }
+
+// verifDateOnlyDateTime: a DateTime of day precision or coarser as it enters from a FHIR dateTime element read in some
+// default time zone, or from the implicit Date -> DateTime conversion of such a date element.
+func verifDateOnlyDateTime(label string) (DateTime, verifCivil) {
+	if verifrt.NondetBool(label + ".viaDate") {
+		d, c := verifDateSrc(label, true)
+		return d.ToDateTime(), c
+	}
+	li := verifrt.Choose(label+".layout", 3)
+	c := verifCivil{y: verifYear(label + ".y"), mo: 1, d: 1, rank: li}
+	if li >= 1 {
+		c.mo = verifMonth(label + ".mo")
+	}
+	if li >= 2 {
+		c.d = verifrt.NondetIntRange(label+".d", 1, 31)
+		verifrt.Assume(c.d <= verifDaysIn(c.y, c.mo))
+	}
+	zones := []struct {
+		tz  string
+		off int
+	}{{"", 0}, {"+05:00", 18000}, {"-08:00", -28800}}
+	z := zones[verifrt.Choose(label+".zone", len(zones))]
+	us := time.Date(c.y, time.Month(c.mo), c.d, 0, 0, 0, 0, time.FixedZone("", z.off)).UnixMicro()
+	dt, err := DateTimeFromProto(&dtpb.DateTime{ValueUs: us, Timezone: z.tz, Precision: []dtpb.DateTime_Precision{dtpb.DateTime_YEAR, dtpb.DateTime_MONTH, dtpb.DateTime_DAY}[li]})
+	verifrt.Assume(err == nil)
+	return dt, c
+}
+
+// C05-E1: date-only DateTimes from FHIR elements (any default zone) against each other and against DateTimes written
+// without an offset: calendar components decide, the element's zone never does.
+func VerifHarness_C05_DateOnlyDateTimesFromElements() {
+	a, ca := verifDateOnlyDateTime("a")
+	var b DateTime
+	var cb verifCivil
+	if verifrt.NondetBool("b.element") {
+		b, cb = verifDateOnlyDateTime("b")
+	} else {
+		b, cb = verifDateTimeL("b", false, verifrt.Choose("b.layout", 7))
+	}
+	cmp, defined := verifCompare("datetime", ca, cb)
+	verifCheckPair(a, b, cmp, defined)
+	verifrt.Reach("end")
+}
